@@ -202,13 +202,18 @@ def gen_sequence(rng, n, alias_loops):
     ops = []
     aliases = {}
 
+    everalias = set()
+
     def code():
         r = rng.random()
         if r < 0.75 and live:
-            return rng.choice(live)
+            c = rng.choice(live)
+            if "/" in c and c.split("/")[0] in everalias:
+                return c.split("/")[0]
+            return c
         if r < 0.9:
             return rng.choice(TOP)
-        return rng.choice(TOP) + "/" + rng.choice(SUB)
+        return rng.choice([x for x in TOP if x not in everalias] or ["zz"]) + "/" + rng.choice(SUB)
 
     def would_loop(nm, tgt):
         # keep alias graphs acyclic unless asked (a cycle not through the alias being resolved crashes the library)
@@ -265,6 +270,7 @@ def gen_sequence(rng, n, alias_loops):
             full = nm if parent == "-" else parent + "/" + nm
             if not alias_loops and would_loop(full, tgt):
                 continue
+            everalias.add(full)
             if full not in live:
                 aliases[full] = tgt
                 live.append(full)
@@ -285,6 +291,8 @@ def gen_sequence(rng, n, alias_loops):
             # keep the alias map roughly right: targets follow unless DANGLE
             if nm in aliases:
                 aliases.pop(nm, None)
+            if nm in everalias:
+                everalias.add(new)
         elif r < 0.69:
             ops.append("V %s %d" % (code(), rng.choice([0, 1, 1, 2])))
         elif r < 0.78:
@@ -479,6 +487,8 @@ def main():
             sb = spec_check(ops[i], res, dl)
             if corrupt:
                 sb = []
+            if any(k in ("unique", "sorted") for k, _ in sb):
+                sb = [(k, m_) for k, m_ in sb if k in ("unique", "sorted")]
             for kind, msg in sb:
                 if kind in ("unique", "sorted"):
                     corrupt = True   # duplicate names: everything later in this sequence is a consequence
@@ -512,6 +522,16 @@ def main():
             else:
                 modelbad.append((ops[:cut + 1], cut, ("> " + why, []), ("no crash", []), False))
 
+    # lookup through an alias of the parent (alias/subfield), judged against the property text directly
+    lw = ["A 0 - a 15 0 0 - - 1", "A 1 a xx 15 0 0 - - 2", "A 0 - aa 15 0 0 - - 3", "A 1 aa x 15 0 0 - - 4", "L - bbbbbbb a 0", "F bbbbbbb/xx"]
+    lrc, lout = run_impl(lw)
+    got = [l for l in lout.splitlines() if l.startswith("> f ")]
+    if lrc != 0 or not got:
+        viol["lookup-harness"] = ("lookup witness did not run: " + lout[-300:], {"kind": "harness", "ops": lw})
+    elif got[0] != "> f a/xx":
+        viol["lookup/alias-subfield"] = ("with entries a, a/xx, aa, aa/x and alias bbbbbbb -> a, the code bbbbbbb/xx resolves to %s instead of a/xx" % got[0][4:],
+                                         {"kind": "impl-vs-spec", "ops": lw, "impl": got[0],
+                                          "how": "feed ops to harness/C15/nametab <scratchdir>"})
     chk.cov["evaluations"] = total_steps
     chk.cov["distinct_nontrivial"] = len(nontriv)
     chk.cov["sequences"] = len(seqs)
